@@ -19,10 +19,13 @@ Definition obs_eqb (a b : obs) : bool :=
 
 Inductive bk := KRr | KCdb | KCdbSep | KV1 | KV2.
 
-Record query := mkQ { q_name : bytes; q_labels : list bytes; q_ecs : bool; q_ip : option N;
+(* names are given as label lists; the models get the packed form *)
+Record query := mkQ { q_labels : list bytes; q_ecs : bool; q_ip : option N;
                       q_fam : N; q_src : N; q_plen : N }.
-Record case := mk { c_bk : bk; c_maps : list mapline; c_decls : list mapdecl;
-                    c_nets : list netline; c_q : query; c_obs : obs }.
+Definition q_name (q : query) : bytes := pack_labels (q_labels q).
+Record case := mk { c_bk : bk; c_decls : list mapdecl; c_nets : list netline; c_qs : list (query * obs) }.
+Definition c_maps (c : case) : list mapline :=
+  map (fun d => mkMapline (md_kind d) (pack_labels (md_name d)) (md_wild d) (md_id d)) (c_decls c).
 
 Definition err_obs (e : N) : obs := if e =? 1 then OPanic else if e =? 2 then OErr else OFuel.
 
@@ -41,11 +44,19 @@ Fixpoint choices (fuel : nat) (S : list subnet) : list (list subnet) :=
       end
   end.
 
+Definition q_addr (q : query) : N := match q_ip q with Some a => a | None => 0 end.
+
 (* ---- model *)
-Definition rr_model (S : list subnet) (a plen : N) : obs :=
-  match rearrange isort S with
+Fixpoint dup_key (pts : list point) : bool :=
+  match pts with
+  | [] => false
+  | p :: r => existsb (fun q => (p_ip p =? p_ip q) && (rp_mlen p =? rp_mlen q)) r || dup_key r
+  end.
+Definition rr_model (pts : result (list point)) (a plen : N) : obs :=
+  match pts with
   | Err e => err_obs e
   | Ok pts =>
+      if dup_key pts then OErr else   (* two records under one key: the lookup reports an error *)
       match pt_locate pts (clean_mask a plen) plen with
       | Some (l, k) => OLoc (0, 0) l k 0
       | None => ONil 0
@@ -62,13 +73,12 @@ Definition db_of (b : bk) (f : dfile) : result (list kv) :=
   | _ => rdb_db isort true f
   end.
 
-Definition db_model (b : bk) (f : dfile) (q : query) : obs :=
-  match db_of b f with
+Definition db_model (b : bk) (d : result (list kv)) (q : query) : obs :=
+  match d with
   | Err e => err_obs e
   | Ok d =>
       if q_ecs q then
-        match ecs_location (backend_of b) d (q_name q) (q_fam q) (q_src q)
-                           (match q_ip q with Some a => a | None => 0 end) with
+        match ecs_location (backend_of b) d (q_name q) (q_fam q) (q_src q) (q_addr q) with
         | Err e => err_obs e
         | Ok (Some l, sc) => OLoc (l_map l) (l_loc l) (l_mask l) sc
         | Ok (None, sc) => ONil sc
@@ -80,36 +90,46 @@ Definition db_model (b : bk) (f : dfile) (q : query) : obs :=
         end
   end.
 
-Definition model_out (c : case) : list obs :=
+(* per query: the outcomes the model allows (several only when a subnet is declared
+   twice with different locations) *)
+Definition model_out (c : case) : list (list obs) :=
   match c_bk c with
   | KRr => let S := map nl_net (c_nets c) in
-           map (fun S' => rr_model S' (match q_ip (c_q c) with Some a => a | None => 0 end) (q_plen (c_q c)))
-               (choices (length S) S)
-  | b => [db_model b (mkDfile (c_maps c) (c_nets c)) (c_q c)]
+           let ptss := map (rearrange isort) (choices (length S) S) in
+           map (fun qo => map (fun pts => rr_model pts (q_addr (fst qo)) (q_plen (fst qo))) ptss) (c_qs c)
+  | b => let d := db_of b (mkDfile (c_maps c) (c_nets c)) in
+         map (fun qo => [db_model b d (fst qo)]) (c_qs c)
+  end.
+
+Fixpoint all_in (os : list (query * obs)) (ms : list (list obs)) : bool :=
+  match os, ms with
+  | [], [] => true
+  | (_, o) :: os', m :: ms' => existsb (obs_eqb o) m && all_in os' ms'
+  | _, _ => false
   end.
 
 (* correspondence: the model computes what the implementation returned *)
-Definition model_ok (c : case) : bool := existsb (obs_eqb (c_obs c)) (model_out c).
+Definition model_ok (c : case) : bool := all_in (c_qs c) (model_out c).
 
 (* ---- the property, through the spec *)
 Definition lpm_client (S : list subnet) (a plen : N) : option (locid * N) :=
   let a' := (a / blk_size plen) * blk_size plen in
   lpm S (fam a') a' plen.
 
-Definition spec_out (c : case) : list obs :=
-  let q := c_q c in
+Definition spec_q (c : case) (qo : query * obs) : list obs :=
+  let q := fst qo in
   match c_bk c with
   | KRr =>
       let S := map nl_net (c_nets c) in
-      map (fun S' => match lpm_client S' (match q_ip q with Some a => a | None => 0 end) (q_plen q) with
+      map (fun S' => match lpm_client S' (q_addr q) (q_plen q) with
                      | Some (l, k) => OLoc (0, 0) l k 0
                      | None => ONil 0
                      end) (choices (length S) S)
   | _ =>
       match q_ip q with
-      | None => [c_obs c]        (* unparsable resolver address: outside the property *)
+      | None => [snd qo]        (* unparsable resolver address: outside the property *)
       | Some a =>
-          if q_ecs q && negb ((q_fam q =? 1) || (q_fam q =? 2)) then [c_obs c] else   (* no address: outside the property *)
+          if q_ecs q && negb ((q_fam q =? 1) || (q_fam q =? 2)) then [snd qo] else   (* no address: outside the property *)
           let mo := map_choice (c_decls c) (if q_ecs q then 56 else 77) (q_labels q) in
           let mid := match mo with Some m => m | None => (0, 0) end in
           let S := map nl_net (filter (fun n => id_eqb (nl_map n) mid) (c_nets c)) in
@@ -129,4 +149,5 @@ Definition spec_out (c : case) : list obs :=
       end
   end.
 
-Definition spec_ok (c : case) : bool := existsb (obs_eqb (c_obs c)) (spec_out c).
+Definition spec_out (c : case) : list (list obs) := map (spec_q c) (c_qs c).
+Definition spec_ok (c : case) : bool := all_in (c_qs c) (spec_out c).
